@@ -187,6 +187,8 @@ func catalogue(sc *issuer.Scenario, rng *rand.Rand) []issuer.Mut {
 	ms = append(ms, issuer.MTPFaults("auth-mtp-", func(p *issuer.ProofJ, e *issuer.Env) **issuer.MTPJ { return &p.IssuerData.MTP }, sc.BJJ.IssuerData.MTP, rng)...)
 	ms = append(ms, issuer.StateFaults(sc, rng)...)
 	ms = append(ms, issuer.DIDFaults(sc)...)
+	ms = append(ms, issuer.NearMissFaults(sc)...)
+	ms = append(ms, issuer.NearMissStatusFaults(sc)...)
 	return ms
 }
 
